@@ -655,6 +655,12 @@ func runSigCase(c SigCase) SigResult {
 				res.WriterRefused = true
 				return res
 			}
+			if err != nil && c.Sign == "auto" && c.T > 0 {
+				// the private key of a key in force is in the keyring: git-bug must be able to write this commit and
+				// to read its own work back
+				res.Findings = append(res.Findings, "gitbug-cannot-write-a-commit-it-can-sign:"+c.Kind+"|"+fmt.Sprintf("%s commit at T=%d by the keyed author with the private key available: git-bug failed on its own write: %v", c.Kind, c.T, err))
+				return res
+			}
 			if err != nil {
 				return herr("git-bug writer", err)
 			}
